@@ -193,6 +193,15 @@ def run(chk):
             else:
                 wc = "OK " + vlist([vs(m.group(0))] + [vs(g) if g is not None else VNULL for g in m.groups()])
             add("s.matchCaptures(p)", b, wc, [("s", s), ("p", p)])
+        if s in ("aab", "abba", "12 ab"):
+            # references in the replacement ($0, ${0}, $1, $$, an unknown group = empty), with plain and with grouping patterns
+            for p, grp in [("a", 0), ("ab", 0), ("b", 0), ("(a)", 1), ("(a)(b)?", 2), ("12", 0), (" ", 0)]:
+                for r_, py in [("[$0]", lambda m: "[" + m.group(0) + "]"), ("${0}${0}", lambda m: m.group(0) * 2), ("5$$", lambda m: "5$"),
+                               ("$nosuch|", lambda m: "|"), ("<$1>", lambda m: "<" + ((m.group(1) or "") if grp >= 1 else "") + ">"),
+                               ("$$0", lambda m: "$0")]:
+                    bb = [("s", vs(s)), ("p", vs(p)), ("r", vs(r_))]
+                    add("s.matchReplace(p, r)", bb, S(re.sub(p, py, s)), [("s", s), ("p", p), ("r", r_)])
+                    add("s.matchReplaceOnce(p, r)", bb, S(re.sub(p, py, s, count=1)), [("s", s), ("p", p), ("r", r_)])
         for p in bad:
             b = [("s", vs(s)), ("p", vs(p))]
             for f in ["s.matches(p)", "s.matchCaptures(p)", "s.matchReplace(p, 'x')", "s.matchReplaceOnce(p, 'x')"]:
